@@ -1,5 +1,6 @@
 import ScrapliModel.Lemmas.PrivSession
 import ScrapliModel.Lemmas.PrivFault
+import ScrapliModel.PrivOptions
 import ScrapliModel.Generated.Consts
 import ScrapliModel.Lemmas.BodiesPriv
 /-!
@@ -427,6 +428,81 @@ example :
 example :
     (runOpsF exCfg true (fun t => t == 0) exAtP [.sendConfigs [[120]] [99], .sendCommand [115]]).2.dev.log =
       [([112], []), ([112], [3]), ([99], []), ([99], [4]), ([112], []), ([112], [115])] := by decide +kernel
+
+/-! ## the explicit target: `opoptions.WithPrivilegeLevel` among other operation options -/
+
+/-- OBLIGATION on the regenerated fact (`Generated/C04Operation.lean`, from the body of
+`network.NewOperation`): one pass of the option loop carries on after `nil`, carries on after
+`ErrIgnoredOption`, and returns the error otherwise — there is no other exit (`break`, an early
+`return o, nil`, or a statement the extractor does not model break this). -/
+theorem generated_option_loop_ok :
+    Gen.C04Operation.loopFound = true ∧
+    sourceTable = { onNil := .next, onIgnored := .next, onReal := .retErr } := by decide
+
+theorem newOperationWith_ok_table (opts : List Opt) :
+    newOperation opts = newOperationWith { onNil := .next, onIgnored := .next, onReal := .retErr } opts [] := by
+  unfold newOperation; rw [generated_option_loop_ok.2]
+
+theorem newOperation_ignored_tail : ∀ (post : List Opt) (lvl : Bytes), (∀ o ∈ post, o = Opt.ignored) →
+    newOperationWith { onNil := .next, onIgnored := .next, onReal := .retErr } post lvl = .ok lvl := by
+  intro post
+  induction post with
+  | nil => intro lvl _; rfl
+  | cons o os ih =>
+    intro lvl h
+    have ho := h o (by simp)
+    subst ho
+    simp only [newOperationWith]
+    exact ih lvl (fun o' h' => h o' (List.mem_cons_of_mem _ h'))
+
+theorem newOperation_prefix_irrelevant : ∀ (pre rest : List Opt) (lvl x : Bytes), (∀ o ∈ pre, o ≠ Opt.bad) →
+    (∀ l, newOperationWith { onNil := .next, onIgnored := .next, onReal := .retErr } rest l = .ok x) →
+    newOperationWith { onNil := .next, onIgnored := .next, onReal := .retErr } (pre ++ rest) lvl = .ok x := by
+  intro pre
+  induction pre with
+  | nil => intro rest lvl x _ h; exact h lvl
+  | cons o os ih =>
+    intro rest lvl x hb h
+    have hrest := fun l => ih rest l x (fun o' h' => hb o' (List.mem_cons_of_mem _ h')) h
+    cases o with
+    | level y => simp only [List.cons_append, newOperationWith]; exact hrest y
+    | ignored => simp only [List.cons_append, newOperationWith]; exact hrest lvl
+    | bad => exact absurd rfl (hb .bad (by simp))
+
+/-- `explicit_target_respected`: wherever `WithPrivilegeLevel x` stands in the option list — after
+any options that do not fail (other level options included: the last one wins) and before any
+number of options of other layers — the operation asks for `x`. Position-independent. -/
+theorem explicit_target_respected (pre post : List Opt) (x : Bytes)
+    (hpre : ∀ o ∈ pre, o ≠ Opt.bad) (hpost : ∀ o ∈ post, o = Opt.ignored) :
+    newOperation (pre ++ Opt.level x :: post) = .ok x := by
+  rw [newOperationWith_ok_table]
+  apply newOperation_prefix_irrelevant pre _ [] x hpre
+  intro l
+  simp only [newOperationWith]
+  exact newOperation_ignored_tail post x hpost
+
+/-- without a level option the field stays empty: the operation falls back to the level of its
+kind (`configuration` for `SendConfig(s)`, the default desired level for `SendInteractive`) -/
+theorem no_level_option_means_default (opts : List Opt) (h : ∀ o ∈ opts, o = Opt.ignored) :
+    newOperation opts = .ok [] := by
+  rw [newOperationWith_ok_table]
+  exact newOperation_ignored_tail opts [] h
+
+/-- the explicit level is the level the operation runs at (`opLevel`), hence — by
+`commands_at_default_configs_at_target` — the level every payload line is delivered in -/
+theorem explicit_target_is_op_level (c : Cfg) (pre post : List Opt) (x : Bytes) (hx : x ≠ [])
+    (hpre : ∀ o ∈ pre, o ≠ Opt.bad) (hpost : ∀ o ∈ post, o = Opt.ignored)
+    (lines : List Bytes) (cfg : Bytes) :
+    ∃ p, newOperation (pre ++ Opt.level x :: post) = .ok p ∧
+      opLevel c (.sendConfigs lines p) = x ∧ opLevel c (.sendConfig cfg p) = x ∧
+      opLevel c (.sendInteractive lines p) = x :=
+  ⟨x, explicit_target_respected pre post x hpre hpost, by simp [opLevel, hx], by simp [opLevel, hx],
+    by simp [opLevel, hx]⟩
+
+/-- negation witness: a loop that `break`s at the first ignored option drops a level option that
+follows it -/
+example : newOperationWith { onNil := .next, onIgnored := .brk, onReal := .retErr }
+    [.ignored, .level [120]] [] = .ok [] := rfl
 
 /-! ## tie to the source: translated body = model (regenerated on every run) -/
 
